@@ -169,6 +169,8 @@ func (g *Gateway) subscriptionHandler(w http.ResponseWriter, r *http.Request) {
 				return
 			}
 
+			applyDeclaredDefaults(operation, request)
+
 			planningContext := &planner.PlanningContext{
 				Request:    request,
 				Operation:  operation,
